@@ -27,12 +27,14 @@ type LoopSpec struct {
 	Invariants []*Clause
 	Decreases  *Clause
 	Modifies   []Expr
+	Lets       []*LetSpec // loop N let NAME = expr : evaluated once at loop entry (before the havoc)
 }
 
 type AtSpec struct {
 	Callee string // callee name suffix to match, e.g. "wrapped.Set" or "WriteSetCmd"
 	Ord    int    // ordinal among matching call sites (source order), -1 = all
 	Clause *Clause
+	Ghost  *GhostAssign // `at send CH: ghost x = e`: ghost update performed right after the send
 }
 
 type FuncSpec struct {
@@ -548,6 +550,16 @@ func (fs *FuncSpec) addClause(t, file string, ln int) error {
 				return err
 			}
 			ls.IterAssumes = append(ls.IterAssumes, c)
+		case "let":
+			i := strings.Index(body, "=")
+			if i < 0 {
+				return fmt.Errorf("loop N let NAME = expr")
+			}
+			e, err := parseSpecExpr(strings.TrimSpace(body[i+1:]))
+			if err != nil {
+				return err
+			}
+			ls.Lets = append(ls.Lets, &LetSpec{Name: strings.TrimSpace(body[:i]), E: e, Text: body})
 		case "decreases":
 			c, err := mk("decreases", body)
 			if err != nil {
@@ -612,6 +624,19 @@ func (fs *FuncSpec) addClause(t, file string, ln int) error {
 				return err
 			}
 			fs.Ats = append(fs.Ats, &AtSpec{Callee: point, Ord: ord, Clause: c})
+		case "ghost":
+			if !isSend {
+				return fmt.Errorf("ghost updates are supported at send sites only")
+			}
+			k := strings.Index(b, "=")
+			if k < 0 {
+				return fmt.Errorf("at send CH: ghost NAME = expr")
+			}
+			e, err := parseSpecExpr(strings.TrimSpace(b[k+1:]))
+			if err != nil {
+				return err
+			}
+			fs.Ats = append(fs.Ats, &AtSpec{Callee: point, Ord: ord, Ghost: &GhostAssign{Name: strings.TrimSpace(b[:k]), E: e, Text: b}})
 		default:
 			return fmt.Errorf("unknown at-clause %q", sub)
 		}
